@@ -163,7 +163,7 @@ class ResendRule(BaseRule):
             return ret(AV("unk", sym="absolute_form"))
         if t == "connection_requires_http_tunnel":
             s = st.copy()
-            self.sites.append(Site("tunnel_pred", node, s, {f"pos{i}": p for i, p in enumerate(pos)}))
+            self.sites.append(Site("tunnel_pred", node, s, {**{f"pos{i}": p for i, p in enumerate(pos)}, **{f"kw:{k}": v for k, v in kw.items()}}))
             return [Out("normal", s, AV("unk", sym="tunnel_required"))]
         if isinstance(f, ast.Attribute) and f.attr == "copy" and recv is not None:
             return ret(AV("unk", tags=frozenset(recv.tags | {"copy"}), truth=recv.truth, none=False, sym=f"copy@{node.lineno}"))
